@@ -6,6 +6,7 @@ import (
 	"crypto/sha1"
 	"encoding/json"
 	"fmt"
+	"net"
 	"os"
 	"os/exec"
 	"sort"
@@ -25,12 +26,15 @@ type topo struct {
 	links []struct {
 		a, b   int
 		stream bool
+		kind   string
 	}
+	sequential bool // senders run one after the other (UDP links: no burst that could overflow a socket buffer)
 }
 
 type lk = struct {
 	a, b   int
 	stream bool
+	kind   string // "": harness link (pipe or re-chunked stream); "tcp", "tcpproxy", "ws", "udp": real backends on 127.0.0.1
 }
 
 type sendRec struct {
@@ -38,6 +42,7 @@ type sendRec struct {
 	payload                          []byte
 	expect                           bool // a listener exists there
 	err                              error
+	alias                            bool // addressed through a spelling of "localhost"
 }
 
 type recvRec struct {
@@ -125,20 +130,26 @@ func meshTopologies(c *Ctx) []*topo {
 		return t
 	}
 	ts := []*topo{
-		mk("chain2-stream", 2, lk{0, 1, true}),
-		mk("chain3-stream-pipe", 3, lk{0, 1, true}, lk{1, 2, false}),
-		mk("tree5", 5, lk{0, 1, false}, lk{0, 2, true}, lk{2, 3, true}, lk{2, 4, false}),
-		mk("chain5-stream", 5, lk{0, 1, true}, lk{1, 2, true}, lk{2, 3, false}, lk{3, 4, true}),
+		mk("chain2-stream", 2, lk{0, 1, true, ""}),
+		mk("chain3-stream-pipe", 3, lk{0, 1, true, ""}, lk{1, 2, false, ""}),
+		mk("tree5", 5, lk{0, 1, false, ""}, lk{0, 2, true, ""}, lk{2, 3, true, ""}, lk{2, 4, false, ""}),
+		mk("chain5-stream", 5, lk{0, 1, true, ""}, lk{1, 2, true, ""}, lk{2, 3, false, ""}, lk{3, 4, true, ""}),
+		// the real backends of pkg/backends over 127.0.0.1: TCP (TCPSession.Send/Recv + framer), TCP through
+		// a re-chunking proxy, websocket, UDP
+		mk("tcp3-direct-and-rechunked", 3, lk{0, 1, false, "tcp"}, lk{1, 2, false, "tcpproxy"}),
 	}
+	wsudp := mk("ws-udp3", 3, lk{0, 1, false, "ws"}, lk{1, 2, false, "udp"})
+	wsudp.sequential = true
+	ts = append(ts, wsudp)
 	if c.Thorough() {
-		ts = append(ts, mk("chain2-pipe", 2, lk{0, 1, false}),
-			mk("star4-stream", 4, lk{0, 1, true}, lk{0, 2, true}, lk{0, 3, true}),
-			mk("chain4-stream", 4, lk{0, 1, true}, lk{1, 2, true}, lk{2, 3, true}))
+		ts = append(ts, mk("chain2-pipe", 2, lk{0, 1, false, ""}),
+			mk("star4-stream", 4, lk{0, 1, true, ""}, lk{0, 2, true, ""}, lk{0, 3, true, ""}),
+			mk("chain4-stream", 4, lk{0, 1, true, ""}, lk{1, 2, true, ""}, lk{2, 3, true, ""}))
 		for k := 0; k < 5; k++ { // random trees
 			n := 2 + r.Intn(4)
 			t := &topo{name: fmt.Sprintf("random-tree-%d", k), nodes: nodeNames(r, n)}
 			for i := 1; i < n; i++ {
-				t.links = append(t.links, lk{r.Intn(i), i, r.Chance(70)})
+				t.links = append(t.links, lk{r.Intn(i), i, r.Chance(70), ""})
 			}
 			ts = append(ts, t)
 		}
@@ -259,7 +270,12 @@ func runMesh(c *Ctx, im *Impl, cf *CaseFile, t *topo, perSender int, bigBudget *
 	st := &shaperStats{}
 	for _, l := range t.links {
 		a, b := t.nodes[l.a], t.nodes[l.b]
-		if l.stream {
+		if l.kind != "" {
+			if err := connectReal(l.kind, mesh.Nodes[a], mesh.Nodes[b], r, st, mkTap(a, b), mkTap(b, a)); err != nil {
+				im.Violate(fmt.Sprintf("mesh %s: %s link %s-%s cannot be set up: %v", t.name, l.kind, a, b, err), "mesh-backend-setup", t.name)
+				return
+			}
+		} else if l.stream {
 			Must(connectStream(mesh.Nodes[a], mesh.Nodes[b], 1.0, r, st, mkTap(a, b), mkTap(b, a)))
 		} else {
 			ea, eb := NewPipePair(4096)
@@ -280,30 +296,83 @@ func runMesh(c *Ctx, im *Impl, cf *CaseFile, t *topo, perSender int, bigBudget *
 		im.Violate("mesh "+t.name+" did not converge within 15 s", "mesh-no-convergence", t.name)
 		return
 	}
-	// listeners
+	// listeners: bound names, an advertised one, an ephemeral one per node; readers with and without
+	// deadlines, one with a short buffer
 	type lst struct {
 		node, svc string
 		pc        netceptor.PacketConner
+		bufLen    int
 	}
 	var listeners []*lst
 	var recvMu sync.Mutex
 	var recvs []recvRec
 	var lwg sync.WaitGroup
-	for _, id := range t.nodes {
-		for _, svc := range serviceNames(r) {
-			pc, err := mesh.Nodes[id].ListenPacket(svc)
+	stop := make(chan struct{})
+	var imMu sync.Mutex
+	gViolate := func(what, sig string) { // from reader and sender goroutines
+		imMu.Lock()
+		im.Violate(what, sig, t.name)
+		imMu.Unlock()
+	}
+	for ni, id := range t.nodes {
+		names := serviceNames(r)
+		names = append(names, fmt.Sprintf("adv%d", ni), "") // advertised, ephemeral
+		for si, svc := range names {
+			var pc netceptor.PacketConner
+			var err error
+			switch {
+			case strings.HasPrefix(svc, "adv"):
+				pc, err = mesh.Nodes[id].ListenPacketAndAdvertise(svc, map[string]string{"k": "v"})
+			default:
+				pc, err = mesh.Nodes[id].ListenPacket(svc)
+			}
 			if err != nil {
 				im.Violate(fmt.Sprintf("ListenPacket(%q) on %q: %v", svc, id, err), "mesh-listen", nil)
 				continue
 			}
-			l := &lst{id, svc, pc}
+			if svc == "" { // the name the node chose
+				svc = pc.LocalService()
+				if len(svc) != 8 || pc.LocalAddr().String() != id+":"+svc {
+					im.Violate(fmt.Sprintf("ephemeral listener on %q: LocalService %q, LocalAddr %q", id, svc, pc.LocalAddr().String()), "mesh-ephemeral-name", nil)
+				}
+				im.Hist("mesh:ephemeral-socket")
+			} else if pc.LocalService() != svc || pc.LocalAddr().String() != id+":"+svc {
+				im.Violate(fmt.Sprintf("listener %q:%q reports LocalService %q, LocalAddr %q", id, svc, pc.LocalService(), pc.LocalAddr().String()), "mesh-local-addr", nil)
+			}
+			// a second listener on a bound name is refused and does not disturb the first
+			if _, err2 := mesh.Nodes[id].ListenPacket(svc); err2 == nil {
+				im.Violate(fmt.Sprintf("a second ListenPacket(%q) on %q succeeds", svc, id), "mesh-listen-twice", nil)
+			}
+			l := &lst{id, svc, pc, consts.MTU + 100}
+			mode := (ni + si) % 4 // 0,1: blocking reads; 2: SetReadDeadline; 3: SetDeadline
+			if ni == 0 && si == 1 {
+				l.bufLen = 64 // a reader with a short buffer gets the first 64 bytes
+				im.Hist("mesh:short-buffer-reader")
+			}
 			listeners = append(listeners, l)
 			lwg.Add(1)
 			go func() {
 				defer lwg.Done()
-				buf := make([]byte, consts.MTU+100)
+				buf := make([]byte, l.bufLen)
 				for {
+					switch mode {
+					case 2:
+						_ = l.pc.SetReadDeadline(time.Now().Add(40 * time.Millisecond))
+					case 3:
+						_ = l.pc.SetDeadline(time.Now().Add(40 * time.Millisecond))
+					}
 					n, addr, err := l.pc.ReadFrom(buf)
+					if err == netceptor.ErrTimeout && mode >= 2 {
+						if n != 0 || addr != nil {
+							gViolate("ReadFrom returns data together with a timeout", "mesh-timeout-with-data")
+						}
+						select {
+						case <-stop: // a read with a deadline does not notice Close
+							return
+						default:
+						}
+						continue
+					}
 					if err != nil {
 						return
 					}
@@ -328,8 +397,20 @@ func runMesh(c *Ctx, im *Impl, cf *CaseFile, t *topo, perSender int, bigBudget *
 			for k := 0; k < perSender; k++ {
 				dst := listeners[sr.Intn(len(listeners))]
 				toNode, toSvc, expect := dst.node, dst.svc, true
-				if sr.Chance(4) { // nobody listens there
+				addrNode := toNode
+				switch k := sr.Intn(100); {
+				case k < 4: // nobody listens there
 					toSvc, expect = "nobody", false
+				case k < 8: // the alias of the own node, in some spelling
+					for _, l2 := range listeners {
+						if l2.node == l.node && l2.svc != l.svc {
+							dst = l2
+						}
+					}
+					toNode, toSvc = l.node, dst.svc
+					addrNode = []string{"localhost", "LocalHost", "LOCALHOST", "localhoſt"}[sr.Intn(4)]
+				case k < 10: // a node nobody has heard of: no route, an error, no delivery
+					toNode, addrNode, expect = "no-such-node", "no-such-node", false
 				}
 				var p []byte
 				switch sr.Intn(10) {
@@ -352,12 +433,28 @@ func runMesh(c *Ctx, im *Impl, cf *CaseFile, t *topo, perSender int, bigBudget *
 				default:
 					p = sr.Bytes(8 + sr.Intn(200))
 				}
-				_, err := l.pc.WriteTo(p, mesh.Nodes[l.node].NewAddr(toNode, toSvc))
+				nw, err := l.pc.WriteTo(p, mesh.Nodes[l.node].NewAddr(addrNode, toSvc))
+				if err == nil && nw != len(p) {
+					gViolate(fmt.Sprintf("WriteTo of %d bytes returns %d", len(p), nw), "mesh-writeto-count")
+				}
+				if toNode == "no-such-node" {
+					if err == nil {
+						gViolate("WriteTo to a node without a route reports success", "mesh-writeto-no-route")
+					}
+					err = nil
+				}
 				sendMu.Lock()
-				sends = append(sends, sendRec{l.node, l.svc, toNode, toSvc, p, expect, err})
+				sends = append(sends, sendRec{l.node, l.svc, toNode, toSvc, p, expect, err, addrNode != toNode})
 				sendMu.Unlock()
 			}
+			// an address of another network type is refused
+			if _, err := l.pc.WriteTo([]byte("x"), &net.UDPAddr{IP: net.IPv4(127, 0, 0, 1), Port: 9}); err == nil {
+				gViolate("WriteTo to a non-receptor address succeeds", "mesh-writeto-foreign-addr")
+			}
 		}()
+		if t.sequential {
+			swg.Wait()
+		}
 	}
 	swg.Wait()
 	expected := 0
@@ -431,6 +528,7 @@ func runMesh(c *Ctx, im *Impl, cf *CaseFile, t *topo, perSender int, bigBudget *
 		taps = taps[:tapsBefore]
 		tapMu.Unlock()
 	}
+	close(stop)
 	for _, l := range listeners {
 		_ = l.pc.Close()
 	}
@@ -442,6 +540,10 @@ func runMesh(c *Ctx, im *Impl, cf *CaseFile, t *topo, perSender int, bigBudget *
 
 	// ---------- oracle 1: deliveries = sends, per listener, with source and payload ----------
 	type key struct{ node, svc, from, ph string }
+	bufLens := map[string]int{}
+	for _, l := range listeners {
+		bufLens[l.node+"\x00"+l.svc] = l.bufLen
+	}
 	exp := map[key]int{}
 	byPayload := map[string][]sendRec{}
 	idx := map[string]int{}
@@ -449,6 +551,14 @@ func runMesh(c *Ctx, im *Impl, cf *CaseFile, t *topo, perSender int, bigBudget *
 		idx[n] = i
 	}
 	for _, s := range sends {
+		if _, known := idx[s.toNode]; !known {
+			im.Count(fmt.Sprintf("send %s %q -> unknown node", t.name, s.fromNode), true)
+			im.Hist("mesh:send-to-unknown-node")
+			continue
+		}
+		if s.alias {
+			im.Hist("mesh:send-to-localhost-alias")
+		}
 		hops := len(treePath(t, idx[s.fromNode], idx[s.toNode])) - 1
 		im.Count(fmt.Sprintf("send %s %q:%x->%q:%x %s", t.name, s.fromNode, s.fromSvc, s.toNode, s.toSvc, pHash(s.payload)), hops >= 1)
 		im.Hist(fmt.Sprintf("mesh:send-over-%d-links", hops))
@@ -462,8 +572,12 @@ func runMesh(c *Ctx, im *Impl, cf *CaseFile, t *topo, perSender int, bigBudget *
 			im.Hist("mesh:8-byte-service")
 		}
 		if s.expect {
-			exp[key{s.toNode, s.toSvc, s.fromNode + ":" + s.fromSvc, pHash(s.payload)}]++
-			byPayload[pHash(s.payload)] = append(byPayload[pHash(s.payload)], s)
+			seen := s.payload
+			if bl, ok := bufLens[s.toNode+"\x00"+s.toSvc]; ok && len(seen) > bl {
+				seen = seen[:bl]
+			}
+			exp[key{s.toNode, s.toSvc, s.fromNode + ":" + s.fromSvc, pHash(seen)}]++
+			byPayload[pHash(seen)] = append(byPayload[pHash(seen)], s)
 			if s.err != nil {
 				im.Violate(fmt.Sprintf("WriteTo %q:%x on a converged mesh fails: %v", s.toNode, s.toSvc, s.err), "mesh-writeto-error", nil)
 			}
@@ -527,6 +641,9 @@ func runMesh(c *Ctx, im *Impl, cf *CaseFile, t *topo, perSender int, bigBudget *
 	}
 	wexp := map[wkey]int{}
 	for _, s := range sends {
+		if _, known := idx[s.toNode]; !known {
+			continue
+		}
 		p := treePath(t, idx[s.fromNode], idx[s.toNode])
 		for i := 0; i+1 < len(p); i++ {
 			wexp[wkey{t.nodes[p[i]], t.nodes[p[i+1]], s.fromNode, s.fromSvc, s.toNode, s.toSvc, pHash(s.payload), int(consts.MaxHops) - (i + 1)}]++
